@@ -51,7 +51,7 @@ theorem get_append_of_ne (t : Tbl) (v : KRow) (k : List Nat) (h : k ≠ v.key) :
   | nil =>
     have : (v.key == k) = false := by
       simp only [beq_eq_false_iff_ne, ne_eq]; exact fun e => h e.symm
-    simp [List.find?_cons, this]
+    simp [this]
   | cons r rest ih =>
     simp only [List.cons_append, List.find?_cons]
     cases hr : r.key == k <;> simp [ih]
@@ -59,7 +59,7 @@ theorem get_append_of_ne (t : Tbl) (v : KRow) (k : List Nat) (h : k ≠ v.key) :
 theorem get_append_new (t : Tbl) (v : KRow) (h : t.has v.key = false) : Tbl.get (t ++ [v]) v.key = some v := by
   unfold Tbl.get
   induction t with
-  | nil => simp [List.find?_cons]
+  | nil => simp
   | cons r rest ih =>
     simp only [Tbl.has, List.any_cons, Bool.or_eq_false_iff] at h
     simp only [List.cons_append, List.find?_cons, h.1]
